@@ -2,6 +2,10 @@ import HcipyVerif.Lemmas.Coronagraph
 import HcipyVerif.Lemmas.CoronagraphMat
 import HcipyVerif.Lemmas.CoronagraphMS
 import HcipyVerif.Lemmas.CoronagraphLyot
+import HcipyVerif.Lemmas.CoronagraphVV
+import Mathlib.Data.Complex.Basic
+import Mathlib.Tactic.LinearCombination
+import Mathlib.Tactic.FieldSimp
 import Mathlib.Algebra.Order.Field.Rat
 import Mathlib.Algebra.Order.Floor.Ring
 import Mathlib.Data.Rat.Floor
@@ -693,47 +697,180 @@ theorem multiscale_wavelength_bad_counterexample :
 
 end MultiScaleAlgebra
 
-/-! ## `Spec`: the projector of an arbitrary orthonormal family (free-standing mathematics)
+/-! ## round 5: the executed Gram–Schmidt output, the multi-scale partition, the vector-vortex Jones
+algebra, and one object used at several wavelengths -/
 
-For *any* finite orthonormal family `v` in *any* real or complex inner-product space the three
-clauses hold for `x ↦ x − Σ ⟪v i, x⟫ v i`; the last one is Bessel's inequality.  These statements
-speak about `projectOut`, a specification no driver runs: they are background, **not** evidence
-about the code (namespace `Spec` says so).  What carries the clauses for the code — complex
-apertures included, through the real `2n × 2k` form of the matrices — are the `perfectMat_*`
-theorems above, whose hypotheses `LeftInv` / `WAdjoint` / `NullsModes` are evaluated by the driver
-on the real object's `transformation` and `transformation_inverse` on every run. -/
-section Abstract
-variable {𝕜 E ι : Type*} [RCLike 𝕜] [NormedAddCommGroup E] [InnerProductSpace 𝕜 E] [Fintype ι]
+section GramSchmidtOutput
+variable {K : Type} [Field K] [LinearOrder K] [IsStrictOrderedRing K] {n : ℕ}
 
-theorem Spec.orthonormal_nulls_span {v : ι → E} (hv : Orthonormal 𝕜 v) (x : E)
-    (hx : x ∈ Submodule.span 𝕜 (Set.range v)) : projectOut (𝕜 := 𝕜) v x = 0 := by
-  obtain ⟨c, rfl⟩ := (Submodule.mem_span_range_iff_exists_fun 𝕜).1 hx
-  unfold projectOut
-  simp only [hv.inner_right_fintype, sub_self]
+/-- **The executed Gram–Schmidt returns an orthogonal family** — for every list of modes (dependent
+or not; the model's `gs` is total, a dependent mode contributes the zero vector).  `gs` is the
+definition the driver runs in `setup` / `apply`. -/
+theorem gs_orthogonal (ms : List (Vector K n)) :
+    (gs ms).Pairwise (fun u v => dot u v = 0) := by
+  have h := gsAuxF_pairwise [] (ms.map toFn) List.Pairwise.nil
+  have hm : (gs ms).map toFn = gsAuxF [] (ms.map toFn) := by
+    unfold gs; rw [map_gsAux]; rfl
+  rw [← hm, List.pairwise_map] at h
+  exact h.imp (fun {u v} huv => by rw [dot_eq_ip]; exact huv)
 
-theorem Spec.orthonormal_idempotent {v : ι → E} (hv : Orthonormal 𝕜 v) (x : E) :
-    projectOut (𝕜 := 𝕜) v (projectOut (𝕜 := 𝕜) v x) = projectOut (𝕜 := 𝕜) v x := by
-  have h : ∀ i, inner 𝕜 (v i) (projectOut (𝕜 := 𝕜) v x) = 0 := inner_projectOut hv x
-  generalize projectOut (𝕜 := 𝕜) v x = r at h ⊢
-  unfold projectOut
-  simp only [h, zero_smul, Finset.sum_const_zero, sub_zero]
+/-- **The executed `perfect` is the orthogonal projector of the executed Gram–Schmidt family**:
+`perfect ms x = x − Σ_{u ∈ gs ms} (⟨u,x⟩/⟨u,u⟩) u` (a zero `u` contributes nothing, `0/0 = 0`).
+This instantiates the abstract `x ↦ x − Σ⟪v i, x⟫ v i` of `Lemmas.orthonormal_*` at the family the
+driver computes, with `v = u/‖u‖` written without square roots. -/
+theorem perfect_eq_orthogonal_projector (ms : List (Vector K n)) (x : Vector K n) :
+    toFn (perfect ms x) = projOutList ((gs ms).map toFn) (toFn x) := by
+  have hm : (gs ms).map toFn = gsAuxF [] (ms.map toFn) := by
+    unfold gs; rw [map_gsAux]; rfl
+  rw [toFn_perfect, hm]
+  exact residualF_eq_projOutList _ (gsAuxF_pairwise [] _ List.Pairwise.nil) _
 
-theorem Spec.orthonormal_power_le {v : ι → E} (hv : Orthonormal 𝕜 v) (x : E) :
-    ‖projectOut (𝕜 := 𝕜) v x‖ ≤ ‖x‖ := by
-  set r := projectOut (𝕜 := 𝕜) v x with hr
-  set y := ∑ i, inner 𝕜 (v i) x • v i with hy
-  have hxy : x = y + r := by rw [hr]; unfold projectOut; rw [← hy]; abel
-  have horth : inner 𝕜 y r = 0 := by
-    rw [hy, sum_inner]
-    apply Finset.sum_eq_zero
-    intro i _
-    rw [inner_smul_left, hr, inner_projectOut hv, mul_zero]
-  have hp := norm_add_sq_eq_norm_sq_add_norm_sq_of_inner_eq_zero y r horth
-  rw [← hxy] at hp
-  have h1 : ‖r‖ * ‖r‖ ≤ ‖x‖ * ‖x‖ := by nlinarith [mul_self_nonneg ‖y‖]
-  by_contra hlt
-  push Not at hlt
-  nlinarith [norm_nonneg r, norm_nonneg x]
-end Abstract
+/-- **What holds on a grid with non-constant weights**: the code orthogonalises in the unweighted
+product (`T⁺ = μ Tᵀ`, `WAdjoint` with unit weights — evaluated by op `pmat` on the real matrices of
+every weighted-grid case), so the *unweighted* `Σ E_i²` never increases, whatever the grid weights.
+What can increase is `total_power = Σ w_i E_i²` (`perfectMat_weighted_power_counterexample`). -/
+theorem perfectMat_unweighted_power_le {k : ℕ}
+    (T : Vector (Vector K k) n) (Tinv : Vector (Vector K n) k) (mu : K)
+    (h : LeftInv T Tinv) (hadj : WAdjoint T Tinv (onesVec K n) mu) (hmu : 0 < mu) (E : Vector K n) :
+    powerW (onesVec K n) (perfectMat T Tinv (onesVec K k) E) ≤ powerW (onesVec K n) E :=
+  perfectMat_power_le T Tinv (onesVec K n) mu h hadj hmu (by intro i; simp [onesVec]) E
+
+/-- Satisfiable on the very grid of the counterexample (weights 1 and 8 are irrelevant here). -/
+example : let T : Vector (Vector ℚ 1) 2 := #v[#v[1], #v[1]]
+    let Tinv : Vector (Vector ℚ 2) 1 := #v[#v[1/2, 1/2]]
+    LeftInv T Tinv ∧ WAdjoint T Tinv (onesVec ℚ 2) (1/2) ∧
+      powerW (onesVec ℚ 2) (perfectMat T Tinv (onesVec ℚ 1) #v[1, 0]) = 1 / 2 := by decide +kernel
+
+end GramSchmidtOutput
+
+section Partition
+variable {K : Type} {d n : ℕ}
+
+/-- **The level masks tile the focal plane.**  On the exact design the masks the constructor's
+recursion arrives at add up to the mask itself, sample by sample — the window complements
+`(1 − w₀), (w₀ − w₁), …, w_{L−2}` are a partition of unity — for every number of levels and any
+windows (hence any scaling factor and window size).  About `msMasks`, the definition op `msalg` runs
+against the real constructors. -/
+theorem levels_partition [CommRing K] (m : Vector K d) (F : Vector (Vector K n) d) (B : Vector (Vector K d) n)
+    (sps : List (Vector Bool d × Vector K d)) (hne : sps ≠ []) :
+    ((msMasks (exactLevels m F B sps)).map toFn).sum = toFn m := by
+  rw [multiscale_masks, expMasks_sum _ _ _ hne]
+  funext p; simp
+
+end Partition
+
+section VectorVortex
+variable {K : Type}
+
+/-- **Jones algebra of the vortex plate**: a linear retarder with retardance `δ` and fast axis `φ`
+acts as `cos(δ/2)·E + i sin(δ/2)·V(φ) E`, `V` the pure vortex term.  (`retarderJones` is compared
+entry by entry with the real `LinearRetarder.jones_matrix` and, through the linear closed form
+`out(δ) = cos(δ/2) out(0) + sin(δ/2) out(π)`, with the real `VectorVortexCoronagraph.forward`, op `vvrun`.) -/
+theorem vector_vortex_decomposition [CommRing K] (i ch sh c2 s2 : K) (e : K × K) :
+    (retarderJones i ch sh c2 s2).apply e =
+      (ch * e.1 + i * sh * ((vortexTerm c2 s2).apply e).1,
+       ch * e.2 + i * sh * ((vortexTerm c2 s2).apply e).2) := by
+  simp only [retarderJones, vortexTerm, Jones.apply, Prod.mk.injEq]
+  constructor <;> ring
+
+/-- **The multi-scale construction is linear in the mask.**  Take any levels (windows, resamplers,
+propagator stand-ins) and two families of raw masks `m₁`, `m₂`; build the stored masks with the
+constructor's recursion and run `forward`: the result for the raw masks `a·m₁ + b·m₂` is
+`a·forward₁ + b·forward₂` — for every number of levels, with or without Lyot stop.  With
+`vector_vortex_decomposition` (every Jones component of the raw vortex mask is
+`cos(δ/2)·(identity part) + sin(δ/2)·(i·vortex part)`) this is the closed form the harness checks on
+the real `VectorVortexCoronagraph` at every wavelength of a history:
+`out(δ) = cos(δ/2)·out(0) + sin(δ/2)·out(π)`.  About `msForward` / `msMasks`, the definitions op
+`msalg` runs against the real constructors and `VectorVortexCoronagraph.make_instance`. -/
+theorem multiscale_linear_in_mask [CommRing K] {d n : ℕ} (a b : K)
+    (ts : List (MSLevel K d n × Vector K d × Vector K d)) (stop : Option (Vector K n)) (E : Vector K n) :
+    toFn (msForward (ts.map fun t => { t.1 with raw := Vector.ofFn fun p => a * t.2.1[p] + b * t.2.2[p] }) stop E) =
+      a • toFn (msForward (ts.map fun t => { t.1 with raw := t.2.1 }) stop E) +
+      b • toFn (msForward (ts.map fun t => { t.1 with raw := t.2.2 }) stop E) :=
+  toFn_msForward_comb a b ts stop E
+
+/-- A circular state `(1, ±i)` keeps the amplitude `cos(δ/2)` in its own state, without any
+dependence on the fast-axis angle (no vortex phase: this part is not nulled), and `i sin(δ/2) e^{±2iφ}`
+goes to the opposite state (the vortex of charge `2φ/θ`). -/
+theorem vector_vortex_co_cross [CommRing K] (cj : K →+* K) (i ch sh c2 s2 : K) (hi : i * i = -1)
+    (hci : cj i = -i) (plus : Bool) :
+    coPolar cj i ch sh c2 s2 plus = 2 * ch ∧
+    crossPolar cj i ch sh c2 s2 plus = 2 * (i * sh * (c2 + (if plus then i else -i) * s2)) := by
+  cases plus <;>
+  · simp only [coPolar, crossPolar, cdot2, circ, retarderJones, Jones.apply, Bool.not_true, Bool.not_false,
+      if_true, if_false, Bool.false_eq_true, map_one, zero_sub, map_neg, hci, neg_neg]
+    constructor <;>
+      first
+      | linear_combination (-ch + i*sh*c2) * hi
+      | linear_combination (ch - i*sh*c2) * hi
+
+/-- **The leak of a vector vortex that is not half wave is `cos²(δ/2)`** of the input power, for
+every fast-axis angle (every focal-plane position and charge) and both circular states. -/
+theorem vector_vortex_leak_eq_cos_sq [Field K] [CharZero K] (cj : K →+* K) (i ch sh c2 s2 : K)
+    (hi : i * i = -1) (hci : cj i = -i)
+    (hch : cj ch = ch) (hsh : cj sh = sh) (hc2 : cj c2 = c2) (hs2 : cj s2 = s2)
+    (hd : ch ^ 2 + sh ^ 2 = 1) (hf : c2 ^ 2 + s2 ^ 2 = 1) (plus : Bool) :
+    vvLeak cj i ch sh c2 s2 plus = ch ^ 2 := by
+  obtain ⟨ha, hb⟩ := vector_vortex_co_cross cj i ch sh c2 s2 hi hci plus
+  have hden : cj (2 * ch) * (2 * ch) +
+      cj (2 * (i * sh * (c2 + (if plus then i else -i) * s2))) *
+        (2 * (i * sh * (c2 + (if plus then i else -i) * s2))) = 4 := by
+    cases plus <;>
+    · simp only [if_true, if_false, Bool.false_eq_true, map_mul, map_add, map_neg, map_ofNat, hci, hch, hsh, hc2, hs2]
+      linear_combination (4 : K) * hd + (4 * sh ^ 2) * hf +
+        (-(4 * sh ^ 2 * c2 ^ 2) - 4 * sh ^ 2 * s2 ^ 2 + 4 * sh ^ 2 * s2 ^ 2 * i ^ 2) * hi
+  unfold vvLeak
+  simp only [ha, hb, hden]
+  simp only [map_mul, map_ofNat, hch]
+  have h4 : (4 : K) ≠ 0 := by norm_num
+  field_simp
+  ring
+
+/-- The hypotheses are satisfiable (complex numbers, `cos(δ/2) = 3/5`, `cos 2φ = 5/13`). -/
+example : ∃ (cj : ℂ →+* ℂ) (i ch sh c2 s2 : ℂ), i * i = -1 ∧ cj i = -i ∧ cj ch = ch ∧ cj sh = sh ∧
+    cj c2 = c2 ∧ cj s2 = s2 ∧ ch ^ 2 + sh ^ 2 = 1 ∧ c2 ^ 2 + s2 ^ 2 = 1 ∧ ch ≠ 0 ∧ sh ≠ 0 :=
+  ⟨starRingEnd ℂ, Complex.I, 3 / 5, 4 / 5, 5 / 13, 12 / 13, by simp, by simp,
+    by simp only [map_div₀, map_ofNat], by simp only [map_div₀, map_ofNat],
+    by simp only [map_div₀, map_ofNat], by simp only [map_div₀, map_ofNat],
+    by norm_num, by norm_num, by norm_num, by norm_num⟩
+
+/-- **One object, any history of wavelengths**: with one instance per wavelength, made by evaluating
+the wavelength-dependent parameter at *that* wavelength, the instance data `forward` runs with at
+every step is the parameter at the wavelength of that step — whatever was propagated before, in
+whatever order, with repetitions.  (`chromRun` is executed by op `vvrun` on the history the real
+object is driven through.) -/
+theorem chromatic_history_free {P : Type} [BEq K] [LawfulBEq K] (param : K → P) (wls : List K) :
+    chromRun param wls = wls.map param :=
+  chromRunFrom_step param wls [] (by simp)
+
+/-- Sharing the instance data of another wavelength (the seeded "masks are in λ/D" shortcut) breaks
+exactly this: the second wavelength runs with the first one's parameter. -/
+theorem chromatic_shared_counterexample :
+    chromRunShared (K := ℕ) (fun wl => wl) [22, 16] = [22, 22] ∧
+    chromRun (K := ℕ) (fun wl => wl) [22, 16] = [22, 16] := by
+  decide
+
+/-- Together: the leak of one chromatic vortex object at every step of any history is
+`cos²(δ(λ)/2)` of the wavelength of that step — in particular zero wherever the plate is half wave,
+whether or not that wavelength came first. -/
+theorem vector_vortex_history_leak [Field K] [CharZero K] [BEq K] [LawfulBEq K] (cj : K →+* K) (i c2 s2 : K)
+    (hi : i * i = -1) (hci : cj i = -i) (hc2 : cj c2 = c2) (hs2 : cj s2 = s2) (hf : c2 ^ 2 + s2 ^ 2 = 1)
+    (param : K → K × K) (hreal : ∀ wl, cj (param wl).1 = (param wl).1 ∧ cj (param wl).2 = (param wl).2)
+    (hunit : ∀ wl, (param wl).1 ^ 2 + (param wl).2 ^ 2 = 1) (plus : Bool) (wls : List K) :
+    (chromRun param wls).map (fun p => vvLeak cj i p.1 p.2 c2 s2 plus) = wls.map (fun wl => (param wl).1 ^ 2) := by
+  rw [chromatic_history_free, List.map_map]
+  apply List.map_congr_left
+  intro wl _
+  exact vector_vortex_leak_eq_cos_sq cj i _ _ c2 s2 hi hci (hreal wl).1 (hreal wl).2 hc2 hs2 (hunit wl) hf plus
+
+/-- The hypotheses on `param` are satisfiable together with those of the `example` above (a plate
+whose retardance does not depend on the wavelength; any real-valued unit `(cos, sin)` table does). -/
+example : ∃ param : ℂ → ℂ × ℂ,
+    (∀ wl, (starRingEnd ℂ) (param wl).1 = (param wl).1 ∧ (starRingEnd ℂ) (param wl).2 = (param wl).2) ∧
+    ∀ wl, (param wl).1 ^ 2 + (param wl).2 ^ 2 = 1 :=
+  ⟨fun _ => (3 / 5, 4 / 5), fun _ => ⟨by simp only [map_div₀, map_ofNat], by simp only [map_div₀, map_ofNat]⟩,
+    fun _ => by norm_num⟩
+
+end VectorVortex
 
 end HcipyVerif.Coronagraph
